@@ -149,6 +149,12 @@ func runSweep(plist string) int {
 			worst = code
 		}
 	}
+	if out := os.Getenv("GTVERIF_WRITE_BASELINE"); out != "" {
+		if err := writeBaseline(out); err != nil {
+			fmt.Println("ERROR: cannot write the reference counts:", err)
+			return 2
+		}
+	}
 	return worst
 }
 
